@@ -45,4 +45,7 @@ void VH_FN(std::map<std::string, std::vector<fmm::Segment>>& out) {
     using E = fmm::Env<double, VH_DIM, false>;
     out["c03"].push_back(starpuSegment<E>(VH_TSAN ? 4 : 8, VH_TSAN ? 40 : 300, VH_TSAN));
     out["c09"].push_back(starpuTsmSegment<E>(VH_TSAN ? 3 : 6, VH_TSAN ? 30 : 200, VH_TSAN));
+#if !VH_TSAN
+    out["c12"].push_back(sch::c12UpperSegment<E, TbfSmStarpuAlgorithm, TbfSmStarpuAlgorithmTsm>("starpu", 8, 200));
+#endif
 }
